@@ -467,15 +467,21 @@ func (e Expr) model(words [][]strategy.Action, cl []float64, pct float64) []stra
 	for i, k := range e.Kids {
 		kids[i] = k.model(words, cl, pct)
 	}
+	// a group ends with its shortest member; a decorator is as long as its inner stream
 	n := len(cl)
+	for _, k := range kids {
+		if len(k) < n {
+			n = len(k)
+		}
+	}
 	out := make([]strategy.Action, n)
 	switch e.Op {
 	case "inverse":
 		return invertModel(kids[0])
 	case "noloss":
-		return noLossModel(kids[0], cl)
+		return noLossModel(kids[0], cl[:n])
 	case "stoploss":
-		return stopLossModel(kids[0], cl, pct)
+		return stopLossModel(kids[0], cl[:n], pct)
 	case "split":
 		for i := 0; i < n; i++ {
 			if kids[0][i] == B && kids[1][i] != S {
@@ -544,7 +550,15 @@ func exprProp() engine.AnyProp {
 			leaves := rapid.IntRange(1, 4).Draw(t, "leaves")
 			c := ExprCase{Closes: make([]float64, n), Pct: float64(rapid.IntRange(0, 31).Draw(t, "pct")) / 64}
 			for i := 0; i < leaves; i++ {
-				w := make([]int, n)
+				m := n
+				if n > 0 && rapid.IntRange(0, 4).Draw(t, "short_member") == 2 {
+					// a member whose action stream ends early
+					m = n - rapid.IntRange(1, 8).Draw(t, "short_by")
+					if m < 0 {
+						m = 0
+					}
+				}
+				w := make([]int, m)
 				dens := rapid.IntRange(1, 3).Draw(t, "dens")
 				for j := range w {
 					if rapid.IntRange(0, 3).Draw(t, "act") < dens {
@@ -574,7 +588,10 @@ func exprProp() engine.AnyProp {
 			leaves := make([]strategy.Strategy, len(c.Words))
 			for i := range words {
 				words[i] = acts(c.Words[i])
-				leaves[i] = &stub.Scripted{Label: fmt.Sprint("s", i), Word: words[i]}
+				leaves[i] = &stub.Scripted{Label: fmt.Sprint("s", i), Word: words[i], Stop: len(words[i]) < len(c.Closes)}
+				if len(words[i]) < len(c.Closes) {
+					o.Class("a_member_stream_ends_early")
+				}
 			}
 			var shared map[string]strategy.Strategy
 			if c.Share {
